@@ -247,6 +247,16 @@ func (c *AttackCase) presented() *etree.Element {
 	return doc.Root()
 }
 
+// hasDsigSignature: does el contain (anywhere) an element {xmldsig}Signature?
+func hasDsigSignature(el *etree.Element) bool {
+	for _, ch := range el.ChildElements() {
+		if (ch.Tag == "Signature" && nsOfEl(ch) == h.NSDsig) || hasDsigSignature(ch) {
+			return true
+		}
+	}
+	return false
+}
+
 // judgeSSO applies the C01 / C04 oracle to the two SSO entry points.
 func (c *AttackCase) judgeSSO(o *h.Outcome) *h.Violation {
 	p := c.provenance()
@@ -309,6 +319,13 @@ func (c *AttackCase) judgeSSO(o *h.Outcome) *h.Violation {
 			// if its plaintext is a SAML assertion, which the oracle cannot know for arbitrary (fuzzed, renamed,
 			// attacker-encrypted) content — so encrypted ones give an upper bound. Dropping an encrypted
 			// assertion that should have been refused is judged by C07's must-reject table.
+			// "an unsigned Response is accepted only if every assertion it carries is individually signed": a
+			// direct-child Assertion element without any ds:Signature inside it cannot be
+			for _, ch := range root.ChildElements() {
+				if ch.Tag == "Assertion" && nsOfEl(ch) == h.NSAssertion && !hasDsigSignature(ch) {
+					return h.V("unsigned-assertion-carried", "%s: accepted an unsigned Response that carries a direct-child Assertion (ID %q) without any signature (returned %d assertions; notes %v)", entry, ch.SelectAttrValue("ID", ""), len(resp.Assertions), c.Notes)
+				}
+			}
 			if len(resp.Assertions) < na || len(resp.Assertions) > na+ne {
 				return h.V("assertion-dropped", "%s: unsigned Response carries %d assertions (+%d encrypted) but %d were returned (notes %v)", entry, na, ne, len(resp.Assertions), c.Notes)
 			}
